@@ -6,6 +6,7 @@ import (
 	"github.com/anz-bank/sysl/pkg/mermaid"
 	"github.com/anz-bank/sysl/pkg/sysl"
 	"github.com/anz-bank/sysl/pkg/syslutil"
+	"github.com/anz-bank/sysl/pkg/utils"
 )
 
 // externalLink keeps track of the statement-endpoint pairs we visit during execution
@@ -33,10 +34,12 @@ func generateEndpointAnalysisDiagramHelper(m *sysl.Module,
 		result = mermaid.GeneratedHeader + "graph TD\n"
 	}
 	count := 1
-	for appName, app := range m.Apps {
+	// sorted names: the output must not depend on map iteration order
+	for _, appName := range utils.OrderedKeys(m.Apps) {
+		app := m.Apps[appName]
 		result += fmt.Sprintf(" subgraph %d[\"%s\"]\n", count, appName)
-		for epName, endPoint := range app.Endpoints {
-			statements := endPoint.Stmt
+		for _, epName := range utils.OrderedKeys(app.Endpoints) {
+			statements := app.Endpoints[epName].Stmt
 			result += printEndpointAnalysisStatements(m, statements, mermaid.CleanString(epName), externalLinks)
 		}
 		result += " end\n"
@@ -58,8 +61,8 @@ func generateMultipleAppEndpointAnalysisDiagramHelper(m *sysl.Module, appNames [
 	for _, appName := range appNames {
 		result += fmt.Sprintf(" subgraph %d[\"%s\"]\n", count, appName)
 		endPoints := m.Apps[appName].Endpoints
-		for epName, endPoint := range endPoints {
-			statements := endPoint.Stmt
+		for _, epName := range utils.OrderedKeys(endPoints) {
+			statements := endPoints[epName].Stmt
 			result += printEndpointAnalysisStatements(m, statements, mermaid.CleanString(epName), externalLinks)
 		}
 		result += " end\n"
